@@ -1,7 +1,7 @@
 (** C08 — Quantizer picks the nearest allowed note in every octave.
     Only the property theorems; proofs are in Proofs/QuantProofs.v (integer search),
     Proofs/QuantFloat.v (input path) and Proofs/QuantReal.v (real-valued wording). *)
-From Coq Require Import ZArith Bool List Reals.
+From Coq Require Import ZArith Bool List Reals Lia.
 Import ListNotations.
 From SU Require Import F32 F32Lemmas.
 From SU.Model Require Import Quantizer.
